@@ -81,7 +81,7 @@ def run(ctx):
 
     # 4. random volume: trees from the seeded generator; types with unexported fields become named types too
     vh0 = ctx.build_vh(name="vh0")
-    nrand = 6000 if quick else 60000
+    nrand = 20000 if quick else 60000
     rr = ctx.run_vh(vh0, ["dump-rand", "-n", str(nrand // 2), "-maxdepth", "4", "-maxwidth", "5", "-firstid", "0"]).stdout
     ru = ctx.run_vh(vh0, ["dump-rand", "-n", str(nrand // 2), "-maxdepth", "4", "-maxwidth", "5", "-unexported",
                           "-firstid", str(nrand // 2)]).stdout
